@@ -122,6 +122,14 @@ impl<R> Archive<R> {
                 .try_into()
                 .unwrap(),
         ) as usize;
+        // The dictionary size is not covered by any checksum yet. Make sure that the
+        // sizes and offsets derived from it below can not overflow.
+        if dictionary_size
+            .checked_add(header::PRE_HEADER_SIZE + 8 + 64)
+            .is_none()
+        {
+            return Err(ArchiveError::invalid_archive("invalid dictionary size"));
+        }
 
         // Read the dictionary, chunk data offset and header hash
         header.extend_from_slice(
